@@ -384,6 +384,75 @@ def _foreign_list_mutations(functions, pkg_names):
     return out
 
 
+# construct 2.10 classes that emit inline parsing code when compiled (they define _emitparse); any other class - in particular every
+# Adapter / Subconstruct subclass of the package - is linked in and parsed by its ordinary _parse, which reports a failed or
+# short read as StreamError.  A compiled FormatField is `struct.Struct(fmt).unpack(io.read(n))[0]`: a short read is a struct.error.
+_COMPILABLE = {"Struct", "Sequence", "Array", "Renamed", "Const", "Computed", "Rebuild", "Default", "Check", "Error", "FocusedSeq", "Hex", "Union", "IfThenElse", "If",
+               "Switch", "StopIf", "Padded", "Padding", "Aligned", "Pointer", "Peek", "Seek", "Tell", "Pass", "Prefixed", "FixedSized", "Enum", "FlagsEnum", "Mapping",
+               "Bytes", "GreedyBytes", "Flag", "StringEncoded", "PaddedString", "Compiled"}
+
+
+def _compiled_format_fields(lay, inline=False, path="", out=None, seen=None):
+    """paths of integer / float fields that are parsed by compiled inline code inside layout `lay`"""
+    from ..core.layout import Struct as LS, Arr, Wrap, Fixed, Prim, Dyn, Zero, BitsS
+    out = [] if out is None else out
+    seen = set() if seen is None else seen
+    if isinstance(lay, tuple):
+        lay = lay[-1]
+    if id(lay) in seen and not inline:
+        return out
+    seen.add(id(lay))
+    inline = inline or bool(getattr(lay, "_compiled", False))
+    if isinstance(lay, Prim):
+        if inline and lay.kind in ("int", "float"):
+            out.append(path or "<field>")
+        return out
+    if isinstance(lay, LS):
+        for n_, f_ in lay.fields:
+            _compiled_format_fields(f_, inline, f"{path}.{n_}" if path else str(n_), out, seen)
+        return out
+    if isinstance(lay, Arr):
+        return _compiled_format_fields(lay.elem, inline, path + "[]", out, seen)
+    if isinstance(lay, Fixed):
+        return _compiled_format_fields(lay.inner, inline, path, out, seen)
+    if isinstance(lay, BitsS):
+        return out  # Bitwise is not compilable
+    if isinstance(lay, Wrap):
+        return _compiled_format_fields(lay.inner, inline and lay.tag in _COMPILABLE, path, out, seen)
+    return out
+
+
+def rule_I13(ctx):
+    """truncation (C15): the partition scan reads straight from the image file, whose reads come back short at the cut.  Where the
+    parsed construct contains compiled inline integer fields, a short read surfaces as struct.error (not a ConstructError): the handler
+    that ends the scan must take it too, or a cut inside such a field aborts the export of everything before it"""
+    from ..core.layout import Layouts, Unknown
+    L = Layouts(ctx)
+    lp = ctx.fn(AK + "image.py", "AkaiImageParser._load_partitions", "I13")
+    ps = [c for c in own_nodes(lp) if isinstance(c, ast.Call) and isinstance(c.func, ast.Attribute) and c.func.attr == "parse_stream" and isinstance(c.func.value, ast.Name)]
+    if len(ps) != 1:
+        raise AnalysisError("I13", where(lp), f"partition parse site not found ({len(ps)} candidates)")
+    try:
+        lay = L.of_name(lp._module, ps[0].func.value.id)
+    except Unknown as e:
+        raise AnalysisError("I13", where(lp), f"layout: {e}")
+    hot = _compiled_format_fields(lay)
+    ctx.fact("I13", "compiled_inline_fields", hot[:12])
+    raw = bool(ps[0].args) and norm(ps[0].args[0]) == "self.file"
+    h = find_try_handler(ps[0], lp, {"ConstructError"})
+    names = set(handler_names(h, dotted_names=True)) if h is not None else set()
+    short = {n_.split(".")[-1] for n_ in names}
+    takes_struct = bool(names & {"struct.error", "Exception", "BaseException", "<bare>"}) or (("error" in short) and any(n_ in ("error",) for n_ in names) and
+                                                                                              any(isinstance(i_, ast.ImportFrom) and i_.module == "struct" and any(a_.name == "error" for a_ in i_.names)
+                                                                                                  for i_ in ast.walk(lp._module.tree)))
+    ok = h is not None and "ConstructError" in short and (not hot or not raw or takes_struct)
+    ctx.ob("I13", ps[0], "the partition scan ends cleanly wherever the file is cut: its handler takes every error a short read can surface as", ok,
+           "" if ok else f"the parsed construct has compiled inline fields (e.g. {hot[0] if hot else '?'}): a cut inside one raises struct.error, which "
+           f"`except ({', '.join(sorted(names))})` lets through - the export aborts and the partitions before the cut are lost", inst="partition-scan:short-read")
+    if not hot:
+        ctx.note("I13: no compiled inline integer field on the partition parse path (obligation holds trivially)") if hasattr(ctx, "note") else None
+
+
 def rule_I1(ctx):
     """a swallowed parse error of one record does not change where / whether the other records are read"""
     # (a) AKAI file table
